@@ -175,6 +175,9 @@ def run_tlc(module, cfg, env=None, workers=16, timeout=600, mode="bfs", extra=()
     if os.environ.get("QV_VERBOSE"):
         import sys
         print("[tlc %s] %.1fs rc=%s" % (name, r.wall, rc), file=sys.stderr)
+        os.makedirs(os.path.join(WORK, "logs"), exist_ok=True)
+        with open(os.path.join(WORK, "logs", name + ".log"), "w") as lf:
+            lf.write(out)
     if not keep:
         shutil.rmtree(meta, ignore_errors=True)
     m = None
